@@ -130,7 +130,24 @@ func vFpData(data []index.Data) string {
 	return fmt.Sprintf("sha1:%s:n=%d", hex.EncodeToString(h[:10]), len(data))
 }
 
+// what a read must return for a stored list: the same chunks with their times cut to the microsecond
+func vStoredAs(data []index.Data) []index.Data {
+	if data == nil {
+		return nil
+	}
+	res := make([]index.Data, 0, len(data))
+	for _, d := range data {
+		if len(d.Content) == 0 {
+			continue // (a chunk without content is not stored)
+		}
+		d.Time = d.Time.Truncate(time.Microsecond)
+		res = append(res, d)
+	}
+	return res
+}
+
 func vDictOf(data []index.Data) vDict {
+	data = vStoredAs(data)
 	d := vDict{Fp: vFpData(data), Dirs: []int{}, Lens: []int{}}
 	var c, s []byte
 	for _, x := range data {
@@ -188,7 +205,7 @@ func vMakeList(rng *rand.Rand, kind string, huge bool, allowEmpty bool) ([]index
 			sizes = []int{vHugeSize, 1 + rng.Intn(50)}
 		}
 	} else {
-		nshapes := 7
+		nshapes := 8
 		if kind == "exh" {
 			nshapes = 6
 		}
@@ -245,6 +262,19 @@ func vMakeList(rng *rand.Rand, kind string, huge bool, allowEmpty bool) ([]index
 				dirs = append(dirs, dir(d))
 				sizes = append(sizes, 1+rng.Intn(6))
 			}
+		case 7:
+			// a converter may say nothing in a packet: chunks without content (the file format has no place for them,
+			// a read returns the list without them)
+			shape = "with-empty-chunks"
+			n := 2 + rng.Intn(5)
+			for i := 0; i < n; i++ {
+				dirs = append(dirs, dir(rng.Intn(2) == 0))
+				if rng.Intn(3) == 0 || i == n-1 {
+					sizes = append(sizes, 0)
+				} else {
+					sizes = append(sizes, small())
+				}
+			}
 		default:
 			shape = "boundary-sizes"
 			n := 1 + rng.Intn(4)
@@ -254,9 +284,10 @@ func vMakeList(rng *rand.Rand, kind string, huge bool, allowEmpty bool) ([]index
 			}
 		}
 	}
-	// times: whole microseconds; monotone / equal / non-monotonic / big jumps / before the epoch of the stream
-	tp := rng.Intn(5)
-	tnames := []string{"monotone", "equal", "non-monotonic", "big-jumps", "starts-early"}
+	// times: monotone / equal / non-monotonic / big jumps / before the epoch of the stream: whole microseconds;
+	// sub-microsecond: monotone with nanosecond parts (a read returns them cut to the microsecond)
+	tp := rng.Intn(7)
+	tnames := []string{"monotone", "equal", "non-monotonic", "big-jumps", "starts-early", "sub-microsecond", "sub-microsecond-back-and-forth"}
 	loc := time.UTC
 	if rng.Intn(3) == 0 {
 		loc = time.FixedZone("x", 3600*(rng.Intn(25)-12))
@@ -281,6 +312,10 @@ func vMakeList(rng *rand.Rand, kind string, huge bool, allowEmpty bool) ([]index
 			t = t.Add(time.Duration(rng.Intn(4000001)-2000000) * time.Microsecond)
 		case 3:
 			t = t.Add(time.Duration(rng.Int63n(3*3600*1000000)) * time.Microsecond)
+		case 5:
+			t = t.Add(time.Duration(rng.Intn(5000000)) * time.Nanosecond)
+		case 6:
+			t = t.Add(time.Duration(rng.Intn(4000001)-2000000) * time.Nanosecond)
 		}
 		ct := ""
 		switch cp {
@@ -538,7 +573,7 @@ func (r *vRun) run() {
 	for _, name := range names {
 		for {
 			data, d := vMakeList(r.rng, b.Kind, name == "H", true)
-			fp := vFpData(data)
+			fp := vFpData(vStoredAs(data))
 			if fps[fp] {
 				continue
 			}
